@@ -7,6 +7,7 @@ package main
 import (
 	"errors"
 	"fmt"
+	"math"
 	"reflect"
 	"strconv"
 	"strings"
@@ -107,7 +108,7 @@ func mkR(t Ty, i int) reflect.Value {
 	case "int64":
 		return pick(int64(1)<<40+5, int64(-9))
 	case "float64":
-		return pick(1.5, -0.5)
+		return pick(1.5, math.Copysign(0, -1))
 	case "string":
 		return pick("go", "x y")
 	case "HS":
